@@ -88,7 +88,7 @@ class C12(Prop):
                         orders.append([[a] for a in gen.perm(rng, alts)])
             orders = dedup(orders)
             t = gen.infer_type([tuple(map(tuple, o)) for o in orders], m)
-            yield {"kind": "opt", "type": t, "alts": alts, "orders": orders}
+            yield {"kind": "opt", "type": t, "alts": gen.perm(rng, alts) if rng.random() < 0.5 else alts, "orders": orders}
         for i in range(max(3, n // 4)):
             m = rng.choice([7, 8, 10, 12])
             alts = gen.alt_ids(rng, m)
